@@ -3,7 +3,7 @@ From Coq Require Import List String Permutation.
 From TS Require Import Model.Str Model.Outcome Model.Unicode Model.Syntax Model.Attrs Model.Types Model.Parse.
 From TS Require Import Model.Lang.TypeScript Model.Lang.Kotlin Model.Lang.Swift Model.Lang.Scala Model.Lang.Go Model.Lang.Python.
 From TS Require Import Spec.Lexers Spec.C15Spec Spec.C15Render.
-From TS Require Proofs.C15 Proofs.C15_Render Proofs.C15_Kotlin Proofs.C15_Go.
+From TS Require Proofs.C15 Proofs.C15_Render Proofs.C15_Kotlin Proofs.C15_Go Proofs.C15_Swift.
 Import ListNotations.
 From TS Require Props.C15.
 
@@ -139,3 +139,13 @@ Goal forall (uc : unicode) (cfg : go_config) custom_structs it st text st',
      forallb safe_go (c15_item_docs_helpers_first it)).
 Proof. exact Props.C15.C15_go_render_partial. Qed.
 Print Assumptions Props.C15.C15_go_render_partial.
+Goal forall (uc : unicode) (cfg : sw_config) it st text st',
+  sw_write_item uc cfg it st = Ok (text, st') ->
+  exists parts,
+    text = text_of (c15_file_pieces C15sw parts) /\
+    docs_of (c15_file_pieces C15sw parts) = c15_sw_item_docs uc it /\
+    (Forall (c15_code_neutral C15sw) parts ->
+     c15_contained C15sw LCode (mark (c15_file_pieces C15sw parts)) =
+     forallb safe_sw (c15_sw_item_docs uc it)).
+Proof. exact Props.C15.C15_sw_render_partial. Qed.
+Print Assumptions Props.C15.C15_sw_render_partial.
